@@ -561,6 +561,7 @@ def run(ctx):
     r5(ctx, fs)
     r6(ctx, fs)
     r7(ctx, fs)
+    r10(ctx, fs)
     # R8 / R9: the last hop of the routing chain, core::<rel> -> theory constructor of the same relation (shared with C11.R6 and C13.R5)
     from .C11 import r6 as arith_routes
     from .C13 import r5 as bool_routes
@@ -569,6 +570,91 @@ def run(ctx):
     # the arithmetic an expression is evaluated with (core::add/sub/mult/div use the compound operators of lin): the rule pack of C15
     ctx.include('C15')
 
+
+
+# ---- R10: the digits of a numeral -----------------------------------------------------------------------------------------------
+
+def r10(ctx, fs):
+    rid = 'C16.R10'
+    ctx.rule(rid, 'numerals: in the arms of lexer::next that make an integer / rational token, a digit held in `ch` (at the entry of a digit arm, or just read there) is appended to a part of the '
+                  'literal before `ch` is read again or the function returns - on every CFG path the digit class admits (branches on ch decided by the class, as in R6)', floor=5)
+    from .. import scan
+    f = fs.fn('riddle::lexer::next')
+    A = scan.Automaton(f)
+    g = A.g
+    DIG = ord('5')
+    top = next((n for n in walk(f.body) if n.get('k') == 'SwitchStmt'), None)
+    if top is None:
+        raise AnalysisBroken('%s: no dispatch on the current character' % f.id)
+    MK = ('riddle::lexer::mk_integer_token', 'riddle::lexer::mk_rational_token')
+    scope = set()
+    groups = []          # a label carries its first statement only: an arm is the labelled statement and the unlabelled ones that follow it
+    for ch_ in kids(top['slots']['body']):
+        if ch_.get('k') in ('CaseStmt', 'DefaultStmt') or not groups:
+            groups.append([])
+        groups[-1].append(ch_)
+    for grp in groups:
+        if any(x.get('k') == 'CXXMemberCallExpr' and x.get('callee_name') in MK for ch_ in grp for x in walk(ch_)):
+            scope |= {id(x) for ch_ in grp for x in walk(ch_)}
+    if not scope:
+        raise AnalysisBroken('%s: no arm makes a numeric token' % f.id)
+
+    def keeps(t):
+        """t appends ch to a string: X += ch, X.push_back(ch), X.append(.., ch), X = X + ch"""
+        if t is None:
+            return False
+        k = t.get('k')
+        if k == 'CXXOperatorCallExpr' and t.get('op') in ('+=', '=') and 'basic_string' in ((t['c'][1].get('t') if len(t.get('c') or ()) > 1 else '') or '') :
+            return any(scan._is_ch(x) for a in t['c'][2:] for x in walk(a))
+        if k == 'CXXMemberCallExpr' and (t.get('callee_name') or '').startswith('std::basic_string') and (t.get('callee_name') or '').rsplit('::', 1)[-1] in ('push_back', 'append', 'insert', 'operator+='):
+            return any(scan._is_ch(x) for a in t['c'][1:] for x in walk(a))
+        return False
+    if not any(keeps(x) for x in walk(top) if id(x) in scope):
+        raise AnalysisBroken('%s: the numeral arms do not build the literal by appending `ch`: a form this rule cannot read' % f.id)
+    starts = []
+    for n in g.nodes:
+        t = g.tree(n)
+        if t is not None and id(t) in scope and scan._is_read_assign(t):
+            starts.append((n, 'read at %s' % short(t.get('loc')), t, True))
+    # entry of the arm of the digits (fall-through chain of the top switch): the block labelled by the LAST digit label that carries the statements
+    for bid, b in A.blocks.items():
+        ln = f.node(b['label']) if b.get('label') is not None else None
+        if ln is None or ln.get('k') != 'CaseStmt' or id(ln) not in scope or not (48 <= (ln.get('case') or 0) <= 57):
+            continue
+        sw = next((a for a in f.ancestors(ln) if a.get('k') == 'SwitchStmt'), None)
+        if sw is not top or not (b.get('elems') or []):
+            continue
+        starts.append(((bid, 0), 'entry of case %r' % chr(ln['case']), ln, False))
+    for idx, (start, what, site, after) in enumerate(starts):
+        seen = set()
+        st = list(g.succ.get(start, [])) if after else [start]
+        bad = None
+        while st and bad is None:
+            n = st.pop()
+            if n in seen:
+                continue
+            seen.add(n)
+            bid, i = n
+            if i is None:
+                if bid == g.exit:
+                    bad = ('the function ends', None)
+                    break
+                for sb in A._branch(bid, DIG):
+                    st.append((sb, 0) if (A.blocks[sb].get('elems') or []) else (sb, None))
+                continue
+            t = g.tree(n)
+            if keeps(t):
+                continue
+            if t is not None and (scan._is_read_assign(t) or (scan._is_next_char(t) and not A._is_rhs_of_read(t))):
+                bad = ('the next character is read at %s' % short(t.get('loc')), t)
+                break
+            if t is not None and t.get('k') == 'ReturnStmt':
+                bad = ('the function returns at %s' % short(t.get('loc')), t)
+                break
+            st.extend(g.succ.get(n, []))
+        ctx.instance(rid, [f.id, '%s #%d' % (what.split(' at ')[0], idx)], {'digit_in_ch': what, 'kept_on_every_path': bad is None, 'cfg_nodes_explored': len(seen)})
+        if bad is not None:
+            ctx.finding(rid, f.id, '%s #%d' % (what.split(' at ')[0], idx), 'lexer::next: a digit of a numeric literal is lost - with a digit in `ch` (%s) %s before the digit has been appended to the literal' % (what, bad[0]), node=site)
 
 
 # ---- R6: scanner automata ------------------------------------------------------------------------------------------------------
